@@ -440,8 +440,13 @@ def attach_replays(led, model):
         else:
             r = pyreplay.run_real(O.HESSIAN_ALL, dict(pay, alphadeg=25., s=400))
             rep = bool(r.get('n_mismatch'))
-        cache[kind] = {'reproduced': rep, 'on': 'installed compiled package (not rebuilt from the .pyx under check)', 'kind': kind,
-                       'input': dict(pay), 'result': r}
+        db = model_db()
+        files = ['compmech/conecyl/%s/%s.pyx' % ('fsdt' if 'fsdt' in model else 'clpt', db[model][k]) for k in ('linear', 'commons')]
+        current = pyreplay.binary_matches_source(files)
+        cache[kind] = {'reproduced': bool(rep and current), 'on': 'installed compiled package (not rebuilt from the .pyx under check)', 'kind': kind,
+                       'input': dict(pay), 'result': r, 'binary_built_from_these_sources': current}
+        if not current:
+            cache[kind]['note'] = 'the .pyx files of this model differ from the commit the extension was built from: the run above does not test them'
         return cache[kind]
     for name, a, kw in led.calls:
         if name != 'fail' or kw.get('replay') is not None:
